@@ -389,7 +389,7 @@ func (k Keeper) Undelegate(ctx sdk.Context, msg *types.MsgUndelegate) error {
 	})
 
 	balances := k.bankKeeper.GetAllBalances(ctx, delegator)
-	prefix := fmt.Sprintf("v%d_", pool.Id)
+	prefix := fmt.Sprintf("v%d/", pool.Id)
 	if !strings.Contains(balances.String(), prefix) {
 		k.RemovePoolDelegator(ctx, pool.Id, delegator)
 	}
